@@ -640,6 +640,10 @@ class Representation(RepresentationBaseType):
             num_segments = int(num_segments)
             num_segments = min(num_segments, 25)
         now = self.mpd.now()
+        if not self.elt.check_not_none(
+                self.period.availability_start_time(),
+                msg='MPD@availabilityStartTime is required to check the live profile'):
+            return
         elapsed_time = now - self.period.availability_start_time()
         startNumber = self.segmentTemplate.startNumber
         last_fragment = startNumber + int(
